@@ -157,6 +157,12 @@ func genC07(t *core.Tape, tier string) *Scenario {
 		case 0:
 			info.class, info.wantCode, info.noEntry = "unknown-compression", 12, true
 			hdr[encHeader] = []string{[]string{"br", "zstd", "x", "GZIP", "deflate"}[t.Choose(5, "alg")]}
+			if t.Bool(1, 4, "alg.list") {
+				// a list of codings, on one line or - the same thing to HTTP - on
+				// two: not an algorithm the handler knows, whatever its first item
+				hdr[encHeader] = [][]string{{"gzip, br"}, {"gzip", "br"}, {"gzip", "gzip"}, {"identity", "zstd"}}[t.Choose(4, "alg.list.which")]
+				sc.Notes["c07_compression_list"]++
+			}
 		case 1:
 			info.class, info.wantCode, info.noEntry = "invalid-timeout", 3, true
 			s, class := genTimeoutString(t, proto != PConnect, sc.Notes)
